@@ -35,8 +35,12 @@ func (e *c02Env) capsOp(label, rpath string) {
 	if e.ns != nil && strings.HasPrefix(rpath, "/") {
 		return // not a namespace-relative path (see `reqns` in the C02 harness): the requests above are all there is to compare
 	}
+	qctx, qpath := e.ctx(), rpath
+	if e.qualified && e.ns != nil {
+		qctx, qpath = vhRootCtx(), e.ns.Path+rpath
+	}
 	res := vh.Catch(func() string {
-		cs, err := e.c.Capabilities(e.ctx(), tok, rpath)
+		cs, err := e.c.Capabilities(qctx, tok, qpath)
 		if err != nil {
 			return "err"
 		}
@@ -46,8 +50,8 @@ func (e *c02Env) capsOp(label, rpath string) {
 	marker := ""
 	// the endpoint
 	req := &logical.Request{Operation: logical.UpdateOperation, Path: "sys/capabilities", ClientToken: e.root,
-		Data: map[string]any{"token": tok, "path": rpath}, Connection: &logical.Connection{RemoteAddr: "127.0.0.1"}}
-	resp, err := e.c.HandleRequest(e.ctx(), req)
+		Data: map[string]any{"token": tok, "path": qpath}, Connection: &logical.Connection{RemoteAddr: "127.0.0.1"}}
+	resp, err := e.c.HandleRequest(qctx, req)
 	if err == nil && resp != nil && !resp.IsError() {
 		var got []string
 		switch v := resp.Data["capabilities"].(type) {
@@ -111,6 +115,19 @@ func TestVerifC03Core(t *testing.T) {
 				e.enterNS("c03ns")
 			}
 			e.cross = mode == 2
+			if mode == 1 {
+				// the token the model knows as `root` is the root token OF THE NAMESPACE here (policy root of c03ns/)
+				// (what generate-root of a namespace hands out)
+				te, err := e.c.tokenStore.rootToken(e.ctx())
+				if err != nil || te == nil {
+					t.Fatalf("namespace root token: %v", err)
+				}
+				id := te.ExternalID
+				if id == "" {
+					id = te.ID
+				}
+				e.toks["root"] = &c02Tok{label: "root", client: id, kind: "root"}
+			}
 			e.mount("rec/")
 			if rng.Chance(40) {
 				e.mount("deep/er/")
@@ -176,11 +193,18 @@ func TestVerifC03Core(t *testing.T) {
 					if p == "" {
 						continue
 					}
+					// half of the questions of a namespace case are asked FROM THE ROOT NAMESPACE with the namespace-
+					// qualified path (requests and capabilities alike): same decisions, same report
+					e.qualified = mode == 1 && rng.Chance(50)
 					e.capsOp(l, p)
+					e.qualified = false
 				}
 			}
 			if !e.cross {
 				e.capsOp("root", e.mounts[0]+"data/a")
+				e.qualified = mode == 1
+				e.capsOp("root", e.mounts[0]+"data/b")
+				e.qualified = false
 			}
 		}()
 	}
